@@ -72,6 +72,8 @@ pub struct Outcome {
     pub violations: Vec<Violation>,
     /// FNV of the run's event log — equal for equal (scenario, code)
     pub fingerprint: u64,
+    /// scenarios that must only be executed in a sacrificial child process (known crash shape)
+    pub deferred: Vec<serde_json::Value>,
 }
 
 #[derive(Clone, Debug, Serialize, Deserialize)]
